@@ -40,6 +40,18 @@ impl Properties for KProps {
     }
 }
 
+impl<K, V, P> Keeper<K, V, P>
+where
+    K: foyer_common::code::StorageKey,
+{
+    /// Stub target for the reject / throttle harnesses of `Store::enqueue` (store.rs): on those paths the write queue must
+    /// not be touched at all, so reaching `Keeper::insert` is the violation.  (The real `insert` - a hashbrown insert through
+    /// raw-pointer pieces - does not discharge, 0.5; natively the harness engine's `forbid_enqueue` panics instead.)
+    pub fn verif_insert_forbidden(&self, _piece: foyer_memory::Piece<K, V, P>) -> PieceRef<K, V, P> {
+        panic!("C12: rejected / throttled entry was put on the write queue (Keeper::insert reached)");
+    }
+}
+
 type K = Keeper<u64, u64, KProps>;
 type R = PieceRef<u64, u64, KProps>;
 
